@@ -145,6 +145,54 @@ def checked_add_exact(ty):
     return f
 
 
+def checked_sub_exact(ty):
+    """checked_sub of an unsigned type: Some(a - b) exactly when a >= b"""
+    def f(eng, st, fr, args, fn, site):
+        a, b = args[0], args[1]
+        if is_int_const(a) and is_int_const(b):
+            n = a[1] - b[1]
+            return ('agg', 'std::option::Option', 'Some', (C(n, ty),)) if n >= 0 else ('agg', 'std::option::Option', 'None', ())
+        under = T('Lt', a, b)
+        return [(('agg', 'std::option::Option', 'Some', (T('Sub', a, b),)), [(under, '==', 0)]),
+                (('agg', 'std::option::Option', 'None', ()), [(under, '==', 1)])]
+    return f
+
+
+def wrapping_neg(ty):
+    lo, hi = INT_RANGE_EARLY[ty]
+
+    def f(eng, st, fr, args, fn, site):
+        a = args[0]
+        if is_int_const(a):
+            return C((-a[1]) % (hi + 1), ty)
+        return T('wsub', C(0, ty), a)
+    return f
+
+
+def trailing_zeros(ty):
+    bits = {'u8': 8, 'u16': 16, 'u32': 32, 'u64': 64, 'usize': 64}[ty]
+
+    def f(eng, st, fr, args, fn, site):
+        a = args[0]
+        if is_int_const(a):
+            n = a[1]
+            return C(bits if n == 0 else (n & -n).bit_length() - 1, 'u32')
+        return T('tz', a, C(bits, 'u32'))
+    return f
+
+
+def f64_from_bits(eng, st, fr, args, fn, site):
+    """f64::from_bits(x.to_bits() & 0x7fff_ffff_ffff_ffff) clears the sign bit: |x|"""
+    a = args[0]
+    if a[0] == 't' and a[1] == 'BitAnd':
+        for x, m in (a[2], a[2][::-1]):
+            if is_int_const(m) and m[1] == 0x7fffffffffffffff and x[0] == 't' and x[1] == 'f64_to_bits':
+                return T('abs', x[2][0])
+    if a[0] == 't' and a[1] == 'f64_to_bits':
+        return a[2][0]
+    return T('f64_from_bits', a)
+
+
 def nonzero_new(eng, st, fr, args, fn, site):
     """NonZero::<T>::new(x): Some(x) unless x == 0 (the wrapper is transparent: NonZero::get is the identity)"""
     x = args[0]
@@ -1075,6 +1123,20 @@ SUMMARIES = {
     'std::num::<impl u32>::checked_add': checked('checked_add'),
     'std::num::<impl u32>::saturating_mul': checked('saturating_mul'),
     'std::num::<impl u16>::checked_add': checked_add_exact('u16'),
+    'std::num::<impl u16>::checked_sub': checked_sub_exact('u16'),
+    'std::num::<impl u32>::checked_sub': checked_sub_exact('u32'),
+    'std::num::<impl u64>::checked_sub': checked_sub_exact('u64'),
+    'std::num::<impl usize>::checked_sub': checked_sub_exact('usize'),
+    'std::num::<impl u16>::wrapping_neg': wrapping_neg('u16'),
+    'std::num::<impl u32>::wrapping_neg': wrapping_neg('u32'),
+    'std::num::<impl u64>::wrapping_neg': wrapping_neg('u64'),
+    'std::num::<impl usize>::wrapping_neg': wrapping_neg('usize'),
+    'std::num::<impl u16>::trailing_zeros': trailing_zeros('u16'),
+    'std::num::<impl u32>::trailing_zeros': trailing_zeros('u32'),
+    'std::num::<impl u64>::trailing_zeros': trailing_zeros('u64'),
+    'std::num::<impl usize>::trailing_zeros': trailing_zeros('usize'),
+    'std::f64::<impl f64>::to_bits': un_val('f64_to_bits'),
+    'std::f64::<impl f64>::from_bits': f64_from_bits,
     'std::num::<impl i64>::checked_add': checked('checked_add'),
     'std::f64::<impl f64>::abs': un_val('abs'),
     'std::f64::<impl f64>::ceil': un_val('ceil'),
